@@ -5,7 +5,7 @@
 From Coq Require Import List ZArith Bool.
 From TskVerif Require Import Base.Common Gen.Generated C18.Model C18.ParserProofs C18.WriterProofs
   C18.BufferProofs C18.TextProofs C18.LabelProofs C18.FastaProofs C18.SafetyProofs C18.IterProofs
-  C18.AsNewickProofs.
+  C18.AsNewickProofs C18.ExactProofs C18.NexusProofs.
 Import ListNotations.
 Open Scope Z_scope.
 
@@ -118,6 +118,42 @@ Theorem as_newick_output_parses_back :
       parse_newick s = Ok (ast_of Tm tsub print_num tm (lab_fn a t l) ibl prec None t).
 Proof. exact as_newick_parses_back. Qed.
 
+(* The traversal stack of tsk_newick_converter_run has tsk_tree_get_size_bound = 1 + num_samples +
+   num_edges entries; the model's C writer reports OOB on a push beyond it, so theorems (b) above
+   already exclude it.  The reason: a represented subtree never has more nodes than that. *)
+Theorem traversal_stack_fits :
+  forall (a : ctree) (p : Z) (t : rtree),
+    repb a p t = true -> NoDup (ids t) -> Z.of_nat (rsize t) <= size_bound a.
+Proof. exact size_le_bound. Qed.
+
+(* Number rendering with NOTHING trusted, for times that are integers (q = 0) or dyadic rationals
+   x / 10^q: print_dec pads with zeros or rounds half-even on the exact value ... *)
+Theorem print_dec_no_delimiters : forall q p x, cleanb (print_dec q p x) = true.
+Proof. exact print_dec_clean. Qed.
+
+Theorem print_dec_length_monotone : forall q p x y, 0 <= q -> 0 <= p -> 0 <= x <= y ->
+  zlen (print_dec q p x) <= zlen (print_dec q p y).
+Proof. exact print_dec_mono. Qed.
+
+(* ... hence on that fragment as_newick succeeds with W computed as the code computes it
+   (rendered length of root time - minimal node time) and its output parses back, for every
+   tree whose times increase towards the root, every root, label mode and precision >= 0 *)
+Theorem as_newick_exact_fragment :
+  forall (q : Z) (times : list Z) (a : ctree) (N rp : Z) (t : rtree),
+    0 <= q ->
+    repb a rp t = true -> nodupb (ids t) = true -> memb rp (ids t) = false ->
+    (forall v, In v (ids t) -> 0 <= v < N) ->
+    (forall v, In v (ids t) -> exists f, get (ct_flags a) v = Ok f) ->
+    (forall v, In v (ids t) -> exists x, get times v = Ok x) ->
+    times_increase times t = true ->
+    forall (l : labspec) (ibl : bool) (prec : Z),
+      0 <= prec -> labels_clean t l ->
+      let W := zlen (print_dec q prec (fx_tm times (rid t) - list_min times)) in
+      let s := py_newick Z Z.sub (print_dec q) (fx_tm times) (lab_fn a t l) ibl prec t in
+      as_newick Z Z.sub (print_dec q) (fx_tm times) a N t l ibl prec W = Ok s /\
+      parse_newick s = Ok (ast_of Z Z.sub (print_dec q) (fx_tm times) (lab_fn a t l) ibl prec None t).
+Proof. exact as_newick_exact. Qed.
+
 (* (c) buffer_estimate_sufficient: with the estimate of Tree._as_newick_fast (as repaired by fix
    1e12f75: 1 + (4 + len(str(N)) + W) * N) the fast path never overflows and returns the string
    of the general path *)
@@ -183,3 +219,16 @@ Theorem nexus_structure : forall samples data trees,
   read_nexus_trees (nexus_lines samples data (Some trees)) = trees /\
   read_nexus_trees (nexus_lines samples data None) = [].
 Proof. exact nexus_trees_block. Qed.
+
+(* nexus TAXA block: TAXLABELS read back = n<id> for ALL samples, in order *)
+Theorem nexus_taxlabels : forall samples data trees,
+  read_nexus_taxa (nexus_lines samples data trees) = Some (map slabel samples).
+Proof. exact nexus_taxa_block. Qed.
+
+(* nexus DATA block: the MATRIX rows read back = (n<id>, alignment) per sample, in order; no DATA
+   block, no rows (TREE statements are not mistaken for rows) *)
+Theorem nexus_data_rows : forall samples nchar mdc als trees,
+  read_nexus_rows (nexus_lines samples (Some (nchar, mdc, als)) trees) false
+  = map (fun ua => (slabel (fst ua), snd ua)) (combine samples als) /\
+  read_nexus_rows (nexus_lines samples None trees) false = [].
+Proof. exact nexus_data_block. Qed.
